@@ -58,6 +58,12 @@ impl Violation {
         self.tags.push(t.into());
         self
     }
+    pub fn tag_if2(mut self, c: bool, t: &str) -> Violation {
+        if c {
+            self.tags.push(t.into());
+        }
+        self
+    }
     pub fn tags(mut self, t: &[String]) -> Violation {
         self.tags.extend(t.iter().cloned());
         self
